@@ -240,7 +240,7 @@ PROPS['C10']['verus'] = ['bits', 'pcw']
 PROPS['C14']['verus'] = ['pcw']
 PROPS['C14']['level'] = 'proof'
 _PCW_ASSUME = [
-    'contract-only callees inside unit pcw, each proved on the real function by the Kani unit wr_k: RecordValue::to_f64/to_i64 (value of a record), update_min/update_max (generic; instantiated at f64 and i64 in Kani)',
+    'contract-only callees inside unit pcw, each proved on the real function by the Kani unit wr_k: RecordValue::to_f64 (float arithmetic), update_min/update_max (generic over PartialOrd; instantiated at f64 and i64 in Kani); RecordValue::to_i64 is verified on its real body in the unit',
     'derive(PartialEq) of RecordName is structural; String fields are modelled by an identity tag',
     'point_count < u64::MAX',
 ]
